@@ -8,6 +8,7 @@ import (
 	"go/types"
 	"math"
 	"os"
+	"sort"
 	"strconv"
 	"strings"
 
@@ -243,11 +244,24 @@ func extFloat32frombits(fr *frame, args []value) value {
 // ---- os
 
 func extGetenv(fr *frame, args []value) value {
+	p := fr.i.path
 	name, ok := args[0].(string)
 	if !ok {
-		fr.i.path.unsupported("os.Getenv of a symbolic name")
+		// a symbolic name: compare with the variables the harness set; any
+		// other variable is unset in the modelled environment
+		keys := make([]string, 0, len(p.env))
+		for k := range p.env {
+			keys = append(keys, k)
+		}
+		sort.Strings(keys)
+		for _, k := range keys {
+			if p.decide(p.strEq(args[0], k)) {
+				return p.env[k]
+			}
+		}
+		return ""
 	}
-	if v, ok := fr.i.path.env[name]; ok {
+	if v, ok := p.env[name]; ok {
 		return v
 	}
 	return ""
